@@ -109,6 +109,19 @@ class Gen:
         sent = []          # previous recv events (for duplicates)
         txseq0 = r.choice(self.txseq0_choices)
         nreq = 0           # upper bound of UPF-initiated requests so far
+        owner = {}         # guessed UP SEID -> node id that established it
+        outstanding = []   # guessed (destination peer, sequence number) of UPF-initiated requests
+        guess = [txseq0, 0]   # next sequence number, sessions established so far
+
+        def note_requests(sd, items):
+            if sd in owner:
+                for it in items:
+                    if it.get("dld") and (it["dld"]["action"] & 8):
+                        outstanding.append((owner[sd], guess[0] % 2**24))
+                        guess[0] += 1
+                if any(it.get("usa") for it in items) and all((not it.get("dld")) or (it["dld"]["action"] & 8) for it in items):
+                    outstanding.append((owner[sd], guess[0] % 2**24))
+                    guess[0] += 1
         kinds = list(self.w)
         wts = [self.w[k] for k in kinds]
 
@@ -139,6 +152,10 @@ class Gen:
                 evs.append(recv(p, {"k": "est", "nid": self.ieval([p] if r.random() < 0.8 else nodes),
                                     "fseid": self.ieval([10, 10, 11, 77, 2**64 - 1]), "ops": self.ops(True)}))
                 nsess += 1
+                m_ = evs[-1]["msg"]
+                if m_["nid"].get("v") is not None and m_["fseid"].get("v") is not None:
+                    guess[1] += 1
+                    owner[guess[1]] = m_["nid"]["v"]
             elif k == "mod":
                 nid = {"absent": True} if r.random() < 0.85 else self.ieval(nodes, 0.0, 0.15)
                 evs.append(recv(p, {"k": "mod", "seid": seid(), "nid": nid, "ops": self.ops(False)}))
@@ -152,6 +169,7 @@ class Gen:
                 ev = {"t": "report", "seid": seid(),
                       "items": [{"usa": self.rpt(r.choice(self.idpool))} for _ in range(r.choice([1, 1, 2, 3]))]}
                 evs.append(ev)
+                note_requests(ev["seid"], ev["items"])
                 nreq += 1
             elif k == "dld":
                 items = []
@@ -161,9 +179,13 @@ class Gen:
                 if r.random() < 0.15:
                     items.append({"usa": self.rpt(r.choice(self.idpool))})
                 evs.append({"t": "report", "seid": seid(), "items": items})
+                note_requests(evs[-1]["seid"], items)
                 nreq += len(items)
             elif k == "timeout":
-                if r.random() < 0.5:
+                if outstanding and r.random() < 0.6:
+                    d_, q_ = r.choice(outstanding)
+                    evs.append({"t": "timeout", "tx": True, "peer": d_, "seq": q_})
+                elif r.random() < 0.5:
                     evs.append({"t": "timeout", "tx": True, "peer": r.randrange(self.npeers),
                                 "seq": (txseq0 + r.randrange(nreq + 1)) % 2**32})
                 elif sent:
@@ -171,6 +193,10 @@ class Gen:
                     evs.append({"t": "timeout", "tx": False, "peer": s["peer"], "seq": s["seq"]})
             elif k == "srr":
                 q = (txseq0 + r.randrange(nreq + 1)) % 2**24
+                if outstanding and r.random() < 0.7:
+                    p, q = outstanding.pop(r.randrange(len(outstanding)))
+                    if r.random() < 0.15:
+                        p = r.randrange(self.npeers)        # wrong peer
                 hdr = r.choice([0, 0, 10, 11, 77, 1, 2, 2**64 - 1])
                 evs.append({"t": "recv", "peer": p, "seq": q, "msg": {"k": "srr", "hdr": hdr}})
                 self.env(evs[-1])
@@ -180,6 +206,69 @@ class Gen:
                 q = (txseq0 + r.randrange(nreq + 1)) % 2**24
                 evs.append({"t": "recv", "peer": p, "seq": q, "msg": {"k": "otherrsp", "type": r.choice(OTHER_RSP), "seid": seid()}})
         return {"maxretrans": r.choice(self.maxretrans_choices), "txseq0": txseq0, "events": evs}
+
+
+def directed(rnd):
+    """Scripted multi-step scenarios with randomised parameters (always part of every run)."""
+    r = rnd
+    E = {"fail": [], "usage": []}
+    noops = {"cFAR": [], "cQER": [], "cURR": [], "cBAR": [], "cPDR": []}
+
+    def rc(peer, seq, msg, **kw):
+        return dict({"t": "recv", "peer": peer, "seq": seq, "msg": msg, "fail": [], "usage": []}, **kw)
+
+    def asr(p, seq, nid=None):
+        return rc(p, seq, {"k": "asr", "nid": {"v": p if nid is None else nid}})
+
+    def est(p, seq, cp, ops=None, nid=None):
+        return rc(p, seq, {"k": "est", "nid": {"v": p if nid is None else nid}, "fseid": {"v": cp}, "ops": ops or dict(noops)})
+
+    def dld(seid, pdr=1, action=12, pkt="aa"):
+        return {"t": "report", "seid": seid, "items": [{"dld": {"pdr": pdr, "action": action, "pkt": pkt}}], "fail": [], "usage": []}
+
+    def srr(p, seq, hdr):
+        return rc(p, seq, {"k": "srr", "hdr": hdr})
+
+    out = []
+    for _ in range(2):
+        a, b = r.sample(range(3), 2)
+        t0 = r.choice([0, 5, 2**24 - 1])
+        far = {"cFAR": [1, 2], "cQER": [1], "cURR": [{"id": 1, "method": 2, "info": 16}], "cBAR": [], "cPDR": [{"id": 1, "urrs": [1], "ueip": False}]}
+        # a session of A is released by a SEID-0 report response, its SEID is re-issued to B, A re-associates
+        out.append({"maxretrans": 1, "txseq0": t0, "events": [
+            asr(a, 1), asr(b, 1), est(a, 2, 10, far), dld(1), srr(a, t0 % 2**24, 0), est(b, 2, 10, far),
+            asr(a, 3), rc(b, 3, {"k": "mod", "seid": 1, "nid": {"absent": True}, "ops": {"cFAR": [3]}}),
+            rc(b, 4, {"k": "del", "seid": 1})]})
+        # deletion, SEID re-use, stale duplicate, report for the old incarnation
+        out.append({"maxretrans": 2, "txseq0": t0, "events": [
+            asr(a, 1), est(a, 2, 10, far), est(a, 3, 11, far), rc(a, 4, {"k": "del", "seid": 1}),
+            dld(1), est(a, 5, 12, far), rc(a, 4, {"k": "del", "seid": 1}), dld(1), rc(a, 6, {"k": "del", "seid": 1}),
+            rc(a, 7, {"k": "del", "seid": 1})]})
+    for mr in range(4):
+        a = r.randrange(3)
+        t0 = r.choice([0, 7, 2**24 - 2])
+        evs = [asr(a, 1), est(a, 2, 10), dld(1), dld(1, action=8)]
+        for _ in range(mr + 2):
+            evs.append({"t": "timeout", "tx": True, "peer": a, "seq": t0 % 2**24})
+        evs += [srr((a + 1) % 3, (t0 + 1) % 2**24, 10), srr(a, (t0 + 1) % 2**24, 10), srr(a, (t0 + 1) % 2**24, 10),
+                {"t": "timeout", "tx": True, "peer": a, "seq": (t0 + 1) % 2**24}]
+        out.append({"maxretrans": mr, "txseq0": t0, "events": evs})
+    # takeover to a fresh node id, then re-association under the new id
+    a = r.randrange(2)
+    out.append({"maxretrans": 1, "txseq0": 0, "events": [
+        asr(a, 1), est(a, 2, 10), est(a, 3, 11), rc(a, 4, {"k": "mod", "seid": 1, "nid": {"v": 2}, "ops": {"cFAR": [1]}}),
+        asr(a, 5), asr(2, 1, nid=2)]})
+    # failed creates, collisions, double removal, then each way of ending
+    ops = {"cFAR": [1, 1, 2], "cQER": [1], "cURR": [{"id": 1, "method": 3, "info": 0}], "cBAR": [1], "cPDR": [{"id": 1, "urrs": [1, 1], "ueip": True}]}
+    for way in range(3):
+        evs = [asr(0, 1), rc(0, 2, {"k": "est", "nid": {"v": 0}, "fseid": {"v": 10}, "ops": ops},
+                            fail=[{"op": "create", "kind": "far", "id": 2}, {"op": "create", "kind": "pdr", "id": 1}]),
+               rc(0, 3, {"k": "mod", "seid": 1, "nid": {"absent": True},
+                         "ops": {"cFAR": [1, 2], "rFAR": [1, 1], "uFAR": [2], "uQER": [2], "rQER": [3], "qURR": [1, 2]}},
+                  fail=[{"op": "update", "kind": "far", "id": 2}])]
+        evs += [[rc(0, 4, {"k": "del", "seid": 1})], [asr(0, 4)], [dld(1), srr(0, 0, 0)]][way]
+        out.append({"maxretrans": 1, "txseq0": 0, "events": evs})
+    return out
 
 
 # ---------------------------------------------------------------- Coq terms
@@ -336,7 +425,8 @@ def c_dump(d, dp, names):
         urrs = clist(["(%d, (%s, %d, %d, (%s, %s, %s, %s)))" % (u["id"], cbool(u["removed"]), u["seqn"], u["ref"],
                                                                cbool(u["durat"]), cbool(u["volum"]), cbool(u["event"]), cbool(u["mnop"]))
                       for u in (s["urrs"] or [])])
-        q = clist(["(%d, %s)" % (x["pdr"], clist([common.cbytes_hex(p) for p in (x["pkts"] or [])])) for x in (s["q"] or [])])
+        q = clist(["(%d, %s)" % (x["pdr"], clist([common.cbytes_hex(p) if p != "closed" else "[999999]" for p in (x["pkts"] or [])]))
+                   for x in (s["q"] or [])])
         return "(Some (mkSd %d %d %d %s %s %s %s %s %s))" % (
             s["lid"], s["rid"], names.obj.get(s["node"], 999), pdrs, clist([cN(x) for x in (s["fars"] or [])]),
             clist([cN(x) for x in (s["qers"] or [])]), clist([cN(x) for x in (s["bars"] or [])]), urrs, q)
